@@ -268,7 +268,13 @@ func (g *Gen) str(x d128.Decimal) { g.un("String", x) }
 func genC06(g *Gen) {
 	g.setMode(0)
 	for !g.w.full() {
-		switch g.r.Intn(8) {
+		switch g.r.Intn(9) {
+		case 8: // both ends of the range, every coefficient shape
+			if g.r.Intn(2) == 0 {
+				g.str(g.topValue())
+			} else {
+				g.str(g.bottomValue())
+			}
 		case 0:
 			g.str(randAny(g.r))
 		case 1:
@@ -289,7 +295,7 @@ func genC06(g *Gen) {
 			if c.Cmp(cMax) > 0 {
 				c = new(big.Int).Set(cMax)
 			}
-			adj := []int{-7, -6, -5, -4, -3, -1, 0, 1, 4, 5, 6, 7, 9, 10, 11, 20, 21, 22, 99, 100, 101, 999, 1000, 1001, -9, -10, -11, -99, -100, -101, -999, -1000, -1001}[g.r.Intn(33)]
+			adj := []int{-7, -6, -5, -4, -3, -1, 0, 1, 4, 5, 6, 7, 9, 10, 11, 20, 21, 22, 99, 100, 101, 999, 1000, 1001, -9, -10, -11, -99, -100, -101, -999, -1000, -1001, 6144, 6145, -6176, -6175, 6111, -6142}[g.r.Intn(39)]
 			if g.r.Intn(4) == 0 {
 				adj = g.r.Intn(12000) - 6000
 			}
